@@ -23,12 +23,12 @@ def session_tasks(tier, checks, prefix, msg_prefix, early=(), nobj=4, kinds=None
             defs += ''.join('#define %s 1\n' % c for c in checks)
             tid = '%s.l%d_c%d_r%d%s' % (prefix, lvl, cs, rp, '' if ec < 0 else '_close%d' % ec)
             out.append(Task(tid, defs + SRC, 'h_session', None,
-                            opts=dict(validate=False, extra=['zlib_stub.cpp'], max_steps=80000000, max_wall=900,
+                            opts=dict(validate=False, extra=['zlib_stub.cpp'], limit_is_hang=True, max_steps=12000000, max_wall=900,
                                       enum_limit=400, msg_prefix=msg_prefix),
                             desc='write session then read session of the real File (compression level %d, container size %d, '
                                  'restore points %d%s): %d objects (CanMessage, AppText, CanMessage2) with symbolic field '
                                  'values and payload bytes, caller-supplied header fields symbolic' % (
                                      lvl, cs, rp, '' if ec < 0 else ', close() after %d of %d reads' % (ec, nobj), nobj),
                             reach=('h_session:end',), bounds='%d objects; one cooperative schedule' % nobj,
-                            kinds=kinds or {'assert', 'memory', 'uncaught_exception', 'terminate', 'deadlock', 'limit', 'leak'}))
+                            kinds=kinds or {'assert', 'memory', 'uncaught_exception', 'terminate', 'deadlock', 'hang', 'limit', 'leak'}))
     return out
